@@ -8,6 +8,8 @@ from ..core import call_attr, calls_in, const, dotted, is_const, kwarg, norm, sl
 from . import c04
 
 EXPLANATION = [
+    'C05.format-safe: (shared with C17.format-safe) the formatting methods of the packet classes read only attributes that exist and format optional fields as numbers only under a guard: every HCI packet is formatted for the debug log before it is sent or dispatched, so a raising __str__ loses the fragment.',
+    'C05.completed-pairs: Host.on_hci_number_of_completed_packets_event processes every (handle, count) pair of the event: no return / break / raise inside its loop.',
     'C05.buffer-size-layout: the return parameters of Read Buffer Size, LE Read Buffer Size and LE Read Buffer Size [v2] are declared with the field order and widths of the Core specification (length(2), count(1) pairs for LE; ACL length(2), SCO length(1), ACL count(2), SCO count(2) for BR/EDR).',
     'C05.acl-ctor: every HCI_AclDataPacket(...) construction in host, controller and link, with positional arguments resolved against the declared field order, gives the start/continuation marker to pb_flag, a zero to bc_flag and len(fragment) / fragment to data_total_length / data.',
     'C05.zero-valid: fields declared `int | None` in the anchored modules are tested for presence with `is None` / `is not None`, never by truthiness, so 0 (sequence number 0, time stamp 0, length 0) is handled like any other value.',
@@ -424,7 +426,31 @@ def zero_valid_rule(ctx):
     zero_valid(ctx, 'C05.zero-valid', ['bumble.hci', 'bumble.host', 'bumble.l2cap'])
 
 
+def completed_pairs(ctx):
+    """Number Of Completed Packets carries several (handle, count) pairs: the handler walks all of them -- nothing in the
+    loop leaves the function or the loop (a pair for a SCO handle or an unknown handle skips that pair only)."""
+    R, p = ctx.r, ctx.p
+    rule = 'C05.completed-pairs'
+    fn = p.find(f'{HOST}.on_hci_number_of_completed_packets_event')
+    if fn is None:
+        R.bad(rule, f'{HOST}.on_hci_number_of_completed_packets_event', 'anchor missing')
+        return
+    loops = [x for x in walk_local(fn) if isinstance(x, ast.For)]
+    R.check(len(loops) == 1, rule, f'{HOST}.on_hci_number_of_completed_packets_event | loop', 'one loop over the pairs', f'{len(loops)} loops', p.loc(fn))
+    for lp in loops:
+        leaves = [x for x in ast.walk(lp) if isinstance(x, (ast.Return, ast.Break, ast.Raise))]
+        R.check(not leaves, rule, f'{HOST}.on_hci_number_of_completed_packets_event | every pair processed', 'no return / break / raise inside the loop over the pairs',
+                f'the loop over the (handle, count) pairs can be left early (line {leaves[0].lineno if leaves else 0}): the credits reported after that pair are never returned and the queue stalls', p.loc(lp))
+
+
+def format_safe_rule(ctx):
+    from .c17 import format_safe
+    format_safe(ctx, 'C05.format-safe')
+
+
 RULES = [
+    ('C05.format-safe', format_safe_rule),
+    ('C05.completed-pairs', completed_pairs),
     ('C05.buffer-size-layout', buffer_size_layout),
     ('C05.acl-ctor', acl_ctor_binding),
     ('C05.zero-valid', zero_valid_rule),
